@@ -65,12 +65,12 @@ func (e Env) RunFaultCase(in FaultInput) (*vhlib.Case, error) {
 	}
 	os.RemoveAll(mdir)
 	type out struct {
-		oks      []bool
-		kinds    []string
-		tree     *Tree
-		rd, rd2  ObsRead
-		healOK   bool
-		effK     []int
+		oks     []bool
+		kinds   []string
+		tree    *Tree
+		rd, rd2 ObsRead
+		healOK  bool
+		effK    []int
 	}
 	res, err := retry(4, func() (*out, error) {
 		dir, root, err := freshDir(e, "f-"+hashOf(in))
